@@ -1844,22 +1844,24 @@ func (ctx Ctx) multipleAssignStmt(s *ast.AssignStmt) coq.Binding {
 	}
 	// Go evaluates the operands of index expressions and pointer
 	// indirections on the left before it assigns anything; here each target is
-	// evaluated when its turn comes, which is the same only if no target
-	// depends on an earlier one
+	// evaluated when its turn comes. That is the same only if no assignment of
+	// the statement can change what a later target's operands evaluate to: a
+	// target other than the first is a variable, or is built from variables
+	// that nothing can have changed by then (never re-assigned ones, and
+	// re-assignable ones as long as only other variables were assigned)
 	assigned := make(map[types.Object]bool)
-	for _, lhs := range s.Lhs {
+	onlyVarsSoFar := true
+	for i, lhs := range s.Lhs {
 		if ident, ok := lhs.(*ast.Ident); ok {
 			if obj := ctx.info.ObjectOf(ident); obj != nil {
 				assigned[obj] = true
 			}
 			continue
 		}
-		ast.Inspect(lhs, func(n ast.Node) bool {
-			if ident, ok := n.(*ast.Ident); ok && assigned[ctx.info.ObjectOf(ident)] {
-				ctx.unsupported(s, "assignment target %s uses %s, which the same statement assigns", ctx.printGo(lhs), ident.Name)
-			}
-			return true
-		})
+		if i > 0 {
+			ctx.stableOperands(s, lhs, lhs, assigned, onlyVarsSoFar)
+		}
+		onlyVarsSoFar = false
 	}
 	names := make([]string, len(s.Lhs))
 	for i := 0; i < len(names); i += 1 {
@@ -1874,6 +1876,50 @@ func (ctx Ctx) multipleAssignStmt(s *ast.AssignStmt) coq.Binding {
 		coqStmts[i+1] = ctx.assignFromTo(s, s.Lhs[i], coq.IdentExpr(name))
 	}
 	return coq.Binding{Names: make([]string, 0), Expr: coq.BlockExpr{Bindings: coqStmts}}
+}
+
+// stableOperands checks that the operands of the assignment target lhs (e is
+// lhs or a part of it) are variables whose value no earlier assignment of the
+// multiple assignment s can have changed.
+func (ctx Ctx) stableOperands(s *ast.AssignStmt, lhs ast.Expr, e ast.Expr, assigned map[types.Object]bool, onlyVarsSoFar bool) {
+	switch e := e.(type) {
+	case *ast.ParenExpr:
+		ctx.stableOperands(s, lhs, e.X, assigned, onlyVarsSoFar)
+	case *ast.BasicLit:
+	case *ast.Ident:
+		if obj := ctx.info.ObjectOf(e); obj != nil {
+			if _, isVar := obj.(*types.Var); !isVar {
+				return // a constant, nil, a type
+			}
+			if assigned[obj] {
+				ctx.unsupported(s, "assignment target %s uses %s, which the same statement assigns", ctx.printGo(lhs), e.Name)
+			}
+			if ctx.isPtrWrapped(e) && !onlyVarsSoFar {
+				ctx.unsupported(s, "assignment target %s uses the re-assignable variable %s after a store of the same statement", ctx.printGo(lhs), e.Name)
+			}
+		}
+	case *ast.IndexExpr:
+		if e == lhs {
+			ctx.stableOperands(s, lhs, e.X, assigned, onlyVarsSoFar)
+			ctx.stableOperands(s, lhs, e.Index, assigned, onlyVarsSoFar)
+			return
+		}
+		ctx.unsupported(s, "assignment target %s reads %s, which an earlier assignment of the same statement may change", ctx.printGo(lhs), ctx.printGo(e))
+	case *ast.StarExpr:
+		if e == lhs {
+			ctx.stableOperands(s, lhs, e.X, assigned, onlyVarsSoFar)
+			return
+		}
+		ctx.unsupported(s, "assignment target %s reads %s, which an earlier assignment of the same statement may change", ctx.printGo(lhs), ctx.printGo(e))
+	case *ast.SelectorExpr:
+		if e == lhs {
+			ctx.stableOperands(s, lhs, e.X, assigned, onlyVarsSoFar)
+			return
+		}
+		ctx.unsupported(s, "assignment target %s reads %s, which an earlier assignment of the same statement may change", ctx.printGo(lhs), ctx.printGo(e))
+	default:
+		ctx.unsupported(s, "assignment target %s of a multiple assignment has an operand that is not a variable", ctx.printGo(lhs))
+	}
 }
 
 func (ctx Ctx) assignStmt(s *ast.AssignStmt) coq.Binding {
